@@ -55,7 +55,11 @@ class Entity:
 
         :rtype: int
         """
-        return util.str_to_time(self._h5group.get_attr("created_at"))
+        stamp = self._h5group.get_attr("created_at")
+        if stamp is None:
+            # not stored (foreign or damaged file): reported by the validator
+            return None
+        return util.str_to_time(stamp)
 
     @property
     def file(self):
